@@ -56,29 +56,43 @@ Inductive await :=
 | WMsgHook (to : side)    (* relay_messages(): yield TcpMessageHook; local send_to = to *)
 | WEndHook.               (* relay_messages(): yield TcpEndHook *)
 
-Record cfg := mkCfg { pr : proto; ignore : bool; server_open : bool }.
+(* uni: the server connection is write-only once connected (state CAN_WRITE, e.g. the server side of a
+   client-initiated unidirectional QUIC stream relayed by a TCPLayer); it never delivers ConnectionClosed *)
+Record cfg := mkCfg { pr : proto; ignore : bool; server_open : bool; uni : bool }.
+Definition connected_state (c : cfg) : conn :=
+  match pr c with
+  | TCP => if uni c then mkConn false true else mkConn true true
+  | UDP => mkConn true true
+  end.
 (* flow.messages newest first: the head is flow.messages[-1] *)
 Record flow := mkFlow { messages : list (bool * bytes); f_error : bool; f_live : bool }.
 
 Record state := mkState {
   cf : cfg; ph : phase; wait : await; queue : list event;
-  client : conn; server : conn; fl : flow; crashed : bool }.
+  client : conn; server : conn; fl : flow; crashed : bool;
+  eof_c : bool; eof_s : bool }.   (* TCPLayer._eof_handled contains True / False *)
 
-Definition set_ph st v := mkState (cf st) v (wait st) (queue st) (client st) (server st) (fl st) (crashed st).
-Definition set_wait st v := mkState (cf st) (ph st) v (queue st) (client st) (server st) (fl st) (crashed st).
-Definition set_queue st v := mkState (cf st) (ph st) (wait st) v (client st) (server st) (fl st) (crashed st).
-Definition set_client st v := mkState (cf st) (ph st) (wait st) (queue st) v (server st) (fl st) (crashed st).
-Definition set_server st v := mkState (cf st) (ph st) (wait st) (queue st) (client st) v (fl st) (crashed st).
-Definition set_fl st v := mkState (cf st) (ph st) (wait st) (queue st) (client st) (server st) v (crashed st).
-Definition set_crashed st := mkState (cf st) (ph st) (wait st) (queue st) (client st) (server st) (fl st) true.
+Definition set_ph st v := mkState (cf st) v (wait st) (queue st) (client st) (server st) (fl st) (crashed st) (eof_c st) (eof_s st).
+Definition set_wait st v := mkState (cf st) (ph st) v (queue st) (client st) (server st) (fl st) (crashed st) (eof_c st) (eof_s st).
+Definition set_queue st v := mkState (cf st) (ph st) (wait st) v (client st) (server st) (fl st) (crashed st) (eof_c st) (eof_s st).
+Definition set_client st v := mkState (cf st) (ph st) (wait st) (queue st) v (server st) (fl st) (crashed st) (eof_c st) (eof_s st).
+Definition set_server st v := mkState (cf st) (ph st) (wait st) (queue st) (client st) v (fl st) (crashed st) (eof_c st) (eof_s st).
+Definition set_fl st v := mkState (cf st) (ph st) (wait st) (queue st) (client st) (server st) v (crashed st) (eof_c st) (eof_s st).
+Definition set_crashed st := mkState (cf st) (ph st) (wait st) (queue st) (client st) (server st) (fl st) true (eof_c st) (eof_s st).
+Definition eof_of st (s : side) : bool := match s with Client => eof_c st | Server => eof_s st end.
+Definition set_eof st (s : side) : state :=     (* self._eof_handled.add(from_client) *)
+  match s with
+  | Client => mkState (cf st) (ph st) (wait st) (queue st) (client st) (server st) (fl st) (crashed st) true (eof_s st)
+  | Server => mkState (cf st) (ph st) (wait st) (queue st) (client st) (server st) (fl st) (crashed st) (eof_c st) true
+  end.
 
 Definition conn_of st (s : side) : conn := match s with Client => client st | Server => server st end.
 Definition set_conn st (s : side) (c : conn) : state :=
   match s with Client => set_client st c | Server => set_server st c end.
 
 Definition init (c : cfg) : state :=
-  mkState c PStart NoWait [] OPEN (if server_open c then OPEN else CLOSED)
-          (mkFlow [] false true) false.
+  mkState c PStart NoWait [] OPEN (if server_open c then connected_state c else CLOSED)
+          (mkFlow [] false true) false false false.
 
 Definition has_flow st : bool := negb (ignore (cf st)).   (* if self.flow: *)
 
@@ -119,6 +133,12 @@ Definition last_content (f : flow) : bytes :=
   match messages f with (_, c) :: _ => c | [] => [] end.
 
 (* ---- start() *)
+(* TCPLayer only: a peer that cannot send is not waited for *)
+Definition mark_unreadable st (s : side) : state :=
+  match pr (cf st) with
+  | TCP => if can_read (conn_of st s) then st else set_eof st s
+  | UDP => st
+  end.
 Definition start_fail_close st : state * list cmd :=         (* yield CloseConnection(client); done *)
   let '(st1, o) := yield st (CloseConnection Client) in
   (set_ph (set_wait st1 NoWait) PDone, o).
@@ -127,12 +147,14 @@ Definition start_open_done st (err : bool) : state * list cmd :=   (* after err 
     if has_flow st then
       (set_wait (set_fl st (mkFlow (messages (fl st)) true (f_live (fl st)))) WErrorHook, [ErrorHook])
     else start_fail_close st
-  else (set_ph (set_wait st NoWait) PRelay, []).
+  else (set_ph (set_wait (mark_unreadable st Server) NoWait) PRelay, []).
 Definition start_open st : state * list cmd :=               (* after the start hook *)
   if negb (server_open (cf st))                               (* server.timestamp_start is None *)
   then (set_wait st WOpen, [OpenConnection])
   else (set_ph (set_wait st NoWait) PRelay, []).
 Definition start st : state * list cmd :=
+  let st := mark_unreadable st Client in
+  let st := if server_open (cf st) then mark_unreadable st Server else st in   (* timestamp_start is not None *)
   if has_flow st then (set_wait st WStartHook, [StartHook]) else start_open st.
 
 (* ---- relay_messages() *)
@@ -153,14 +175,17 @@ Definition relay_closed st (from : side) : state * list cmd :=
   let to := other from in
   match pr (cf st) with
   | TCP =>
-      let all_done := negb (can_read (client st) || can_read (server st)) in
+      (* the layer records which peers' closes it has HANDLED: connection.state is updated when the
+         event arrives, possibly long before it is processed *)
+      let st0 := set_eof st from in
+      let all_done := eof_of st0 to in
       if all_done then
-        let st1 := set_ph st PDone in
+        let st1 := set_ph st0 PDone in
         let '(st2, o1) := close_if_open st1 Server in
         let '(st3, o2) := close_if_open st2 Client in
         let '(st4, o3) := end_flow st3 in
         (st4, o1 ++ o2 ++ o3)
-      else yield st (HalfClose to)
+      else yield st0 (HalfClose to)
   | UDP =>
       let st1 := set_ph st PDone in
       let '(st2, o1) := yield st1 (CloseConnection to) in
@@ -188,7 +213,7 @@ Definition resume (st : state) (a : action) (err : bool) : state * list cmd :=
   match wait st with
   | NoWait => (st, [])
   | WStartHook => start_open (on_fl st (fun f => apply_kill f a))
-  | WOpen => start_open_done (if err then st else set_server st OPEN) err
+  | WOpen => start_open_done (if err then st else set_server st (connected_state (cf st))) err
   | WErrorHook => start_fail_close (on_fl st (fun f => apply_kill f a))
   | WMsgHook to => relay_data_hooked (on_fl st (fun f => apply_kill (apply_edit f a) a)) to
   | WEndHook => (end_hooked (on_fl st (fun f => apply_kill f a)), [])
